@@ -51,6 +51,8 @@ func TestCheck(t *testing.T) {
 		{"", Pos{1, 1, 0, -1}, ""},   // empty range at start
 		{"abc", Pos{1, 1, 0, -2}, "range-end;end-before-start;"},
 		{"abc", Pos{1, 5, 4, 4}, "range-start;range-end;"},
+		{"abc", Pos{1, 3, 2, 3}, "range-end;"}, // End one past the last byte
+		{"abc", Pos{1, 4, 3, 3}, ""},           // position at EOF
 		{"abc", Pos{1, 1, -1, 0}, "range-start;"},
 		{"abc", Pos{1, 3, 2, 0}, "end-before-start;"},
 		{"abc", Pos{1, 3, 2, 1}, ""}, // End = Start-1: empty token
